@@ -1,12 +1,13 @@
-SPECIFICATION Spec
+SPECIFICATION TSpec
 CONSTANTS
   Conns = {1, 2}
   Calls = {1, 2, 3}
   ConnOf <- ConnOfDef
   Items <- ItemsDef
   WaitForConns = TRUE
-  Aging = TRUE
   DrainGracefully = TRUE
-INVARIANTS ResolveLate NoLoss
-PROPERTIES NoAcceptAfter AcceptedCompletes ResolveEventually EndResolves
+  Aging = TRUE
+CONSTRAINT Progress
+INVARIANT MechInv
+POSTCONDITION Accepted
 CHECK_DEADLOCK FALSE
